@@ -40,7 +40,7 @@ Step == /\ l <= Len(Rec)
               /\ noob' = noob + Cardinality({i \in 1..Len(runs) : Oob(runs[i].m)})
               /\ ndrift' = ndrift + Cardinality(drift)
               /\ \A i \in bad : PrintT(<<"VERDICT", r.id, Verdict(runs[i].m, runs[i].out), ToJson(runs[i].out)>>)
-              /\ \A i \in drift : PrintT(<<"DRIFT", r.id, i, ToJson([model |-> runs[i].m.k, out |-> runs[i].out]), runs[i].m.v>>)
+              /\ \A i \in drift : PrintT(<<"DRIFT", r.id, i, ToJson([model |-> runs[i].m.k, out |-> runs[i].out])>>)
         /\ l' = l + 1
 Done == /\ l = Len(Rec) + 1
         /\ PrintT(<<"SUMMARY", Len(Rec), nbad, noob, ndrift>>)
